@@ -78,6 +78,9 @@ class Engine:
         self.notes = {}
         self.t0 = None
         self._fresh = 0
+        self.xcheck_budget = 0
+        self.xcheck_seen = {}
+        self.xcheck = {}
 
     # --- exploration -----------------------------------------------------
     def explore(self, body):
@@ -262,7 +265,12 @@ class Engine:
             neg = z3.BoolVal(True)
         else:
             neg = z3.Not(prop.e)
-        if not self._sat(neg):
+        verdict = self._sat(neg)
+        if self.xcheck_budget > 0 and not isinstance(prop, bool) and self.xcheck_seen.get(oblig, 0) < 2:
+            self.xcheck_seen[oblig] = self.xcheck_seen.get(oblig, 0) + 1
+            self.xcheck_budget -= 1
+            self._cross_check(neg, verdict, oblig)
+        if not verdict:
             return True
         regs = self._region_exprs(oblig)
         outside = [neg]
@@ -292,13 +300,47 @@ class Engine:
             raise PathAbort()
         return False
 
+    def _cross_check(self, neg, z3_says_sat, oblig):
+        """Differential: re-decide this obligation query with cvc5 (thorough tier)."""
+        try:
+            import cvc5
+        except ImportError:
+            self.xcheck["unavailable"] = self.xcheck.get("unavailable", 0) + 1
+            return
+        t = time.time()
+        tmp = z3.Solver()
+        tmp.add(self.s.assertions())
+        tmp.add(neg)
+        text = tmp.to_smt2()
+        try:
+            slv = cvc5.Solver()
+            slv.setOption("tlimit-per", "15000")
+            slv.setLogic("ALL")
+            parser = cvc5.InputParser(slv)
+            parser.setStringInput(cvc5.InputLanguage.SMT_LIB_2_6, text, "q")
+            sm = parser.getSymbolManager()
+            out = ""
+            while True:
+                cmd = parser.nextCommand()
+                if cmd.isNull():
+                    break
+                out += str(cmd.invoke(slv, sm))
+            ans = out.strip().split()[-1] if out.strip() else "unknown"
+        except Exception as ex:  # noqa: BLE001
+            ans = "error:%s" % type(ex).__name__
+        key = "agree" if ans == ("sat" if z3_says_sat else "unsat") else ("disagree" if ans in ("sat", "unsat") else "inconclusive")
+        self.xcheck[key] = self.xcheck.get(key, 0) + 1
+        self.xcheck["seconds"] = round(self.xcheck.get("seconds", 0) + time.time() - t, 2)
+        if key == "disagree":
+            self.unsupported.append("solver disagreement on %s: z3 %s, cvc5 %s" % (oblig, "sat" if z3_says_sat else "unsat", ans))
+
     def fail(self, oblig, msg=""):
         return self.check(False, oblig, msg)
 
     def stats(self):
         return {"paths": self.paths, "aborted": self.aborted, "forks": self.forks, "pruned": self.pruned,
                 "queries": self.queries, "solver_s": round(self.solver_s, 3), "checks": self.checks,
-                "checks_by_obligation": dict(self.checks_by_oblig)}
+                "checks_by_obligation": dict(self.checks_by_oblig), "cross_check_cvc5": dict(self.xcheck)}
 
 
 def _plain(x):
